@@ -177,7 +177,7 @@ func extractDefineMethod(content string) []MethodDefinition {
 
 	mrbDefineIdPattern :=
 		regexp.MustCompile(
-			`mrb_define_(class_)?method_id\s*\(\s*\w+\s*,\s*\w+\s*,\s*MRB_SYM(_Q)?\((\w+)\)\s*,\s*(\w+)\s*,\s*([^)]+\))`,
+			`mrb_define_(class_)?method_id\s*\(\s*\w+\s*,\s*\w+\s*,\s*MRB_SYM(_Q)?\((\w+)\)\s*,\s*(\w+)\s*,\s*((?:[^()]|\([^()]*\))+)\)`,
 		)
 
 	mrbIdMatches := mrbDefineIdPattern.FindAllStringSubmatch(content, -1)
@@ -202,7 +202,7 @@ func extractDefineMethod(content string) []MethodDefinition {
 
 	mrbDefinePattern :=
 		regexp.MustCompile(
-			`mrb_define_(class_)?method\s*\(\s*\w+\s*,\s*\w+\s*,\s*"([^"]+)"\s*,\s*(\w+)\s*,\s*([^)]+\))`,
+			`mrb_define_(class_)?method\s*\(\s*\w+\s*,\s*\w+\s*,\s*"([^"]+)"\s*,\s*(\w+)\s*,\s*((?:[^()]|\([^()]*\))+)\)`,
 		)
 
 	mrbMatches := mrbDefinePattern.FindAllStringSubmatch(content, -1)
